@@ -154,6 +154,7 @@ type c18Scn struct {
 
 type c18Obs struct {
 	Rejected []c18Rule    `json:"rejected"`
+	Cov      []bool       `json:"cov"` // validate: per granular sub-rule (BreakdownRule order), Kubernetes ruleCovers
 	VErr     bool         `json:"verr"`
 	Results  []string     `json:"results"` // per round: ok | requeue | err | crashed
 	Writes   [][]string   `json:"writes"`  // per round: applied writes "create:<name>" / "update:<name>"
@@ -245,16 +246,29 @@ func c18ParseOrg(pkg string) *c18Org {
 	return &c18Org{Reg: c.RegistryStr(), Org: strings.Split(c.RepositoryStr(), "/")[0]}
 }
 
-func c18CtrlRef(uid string) []metav1.OwnerReference {
+// c18CtrlRef is the controller reference meta.AsController(meta.TypedReferenceTo(owner, gvk))
+// yields for the scenario object with that UID (an unknown UID gets a made-up owner).
+func c18CtrlRef(s c18Scn, uid string) []metav1.OwnerReference {
 	if uid == "" {
 		return nil
 	}
 	t := true
-	return []metav1.OwnerReference{{APIVersion: "pkg.crossplane.io/v1", Kind: "ProviderRevision", Name: "owner-" + uid, UID: types.UID(uid), Controller: &t, BlockOwnerDeletion: &t}}
+	ref := metav1.OwnerReference{APIVersion: "pkg.crossplane.io/v1", Kind: "ProviderRevision", Name: "owner-" + uid, UID: types.UID(uid), Controller: &t, BlockOwnerDeletion: &t}
+	for _, p := range s.PRs {
+		if p.UID == uid {
+			ref.Name = p.Name
+		}
+	}
+	for _, x := range s.XRDs {
+		if x.UID == uid {
+			ref.APIVersion, ref.Kind, ref.Name = "apiextensions.crossplane.io/v1", "CompositeResourceDefinition", x.Name
+		}
+	}
+	return []metav1.OwnerReference{ref}
 }
 
-func c18SeedRole(st *Store, r c18Role) {
-	cr := &rbacv1.ClusterRole{ObjectMeta: metav1.ObjectMeta{Name: r.Name, OwnerReferences: c18CtrlRef(r.Ctrl)}, Rules: c18K8sRules(r.Rules)}
+func c18SeedRole(st *Store, s c18Scn, r c18Role) {
+	cr := &rbacv1.ClusterRole{ObjectMeta: metav1.ObjectMeta{Name: r.Name, OwnerReferences: c18CtrlRef(s, r.Ctrl)}, Rules: c18K8sRules(r.Rules)}
 	if len(r.Labels) > 0 {
 		cr.Labels = map[string]string{}
 		for _, kv := range r.Labels {
@@ -267,7 +281,7 @@ func c18SeedRole(st *Store, r c18Role) {
 func c18Store(s c18Scn) *Store {
 	st := NewStore(c18Scheme())
 	if s.Validator == "role" || s.Kind == "validate" {
-		c18SeedRole(st, c18Role{Name: c18AllowName, Rules: s.Allow})
+		c18SeedRole(st, s, c18Role{Name: c18AllowName, Rules: s.Allow})
 	}
 	for _, p := range s.PRs {
 		pr := &pkgv1.ProviderRevision{ObjectMeta: metav1.ObjectMeta{Name: p.Name, UID: types.UID(p.UID)}}
@@ -317,10 +331,10 @@ func c18Store(s c18Scn) *Store {
 		st.Seed(dep)
 	}
 	for _, r := range s.Roles {
-		c18SeedRole(st, r)
+		c18SeedRole(st, s, r)
 	}
 	for _, b := range s.Bindings {
-		crb := &rbacv1.ClusterRoleBinding{ObjectMeta: metav1.ObjectMeta{Name: b.Name, OwnerReferences: c18CtrlRef(b.Ctrl)},
+		crb := &rbacv1.ClusterRoleBinding{ObjectMeta: metav1.ObjectMeta{Name: b.Name, OwnerReferences: c18CtrlRef(s, b.Ctrl)},
 			RoleRef: rbacv1.RoleRef{APIGroup: rbacv1.GroupName, Kind: "ClusterRole", Name: b.RoleRef}}
 		for _, sj := range b.Subjects {
 			crb.Subjects = append(crb.Subjects, rbacv1.Subject{Kind: rbacv1.ServiceAccountKind, Namespace: sj.NS, Name: sj.Name})
@@ -433,7 +447,7 @@ func c18Reconciler(st *Store, s c18Scn) reconcile.Reconciler {
 }
 
 func c18Run(s c18Scn) (c18Obs, []Mon) {
-	obs := c18Obs{Rejected: []c18Rule{}, Results: []string{}, Writes: [][]string{}, Roles: []c18Role{}, Bindings: []c18Binding{}}
+	obs := c18Obs{Rejected: []c18Rule{}, Cov: []bool{}, Results: []string{}, Writes: [][]string{}, Roles: []c18Role{}, Bindings: []c18Binding{}}
 	var mons []Mon
 	st := c18Store(s)
 
@@ -445,6 +459,11 @@ func c18Run(s c18Scn) (c18Obs, []Mon) {
 		obs.VErr = err != nil
 		for _, r := range rej {
 			obs.Rejected = append(obs.Rejected, c18FromRule(r))
+		}
+		for _, q := range s.Requests {
+			for _, sub := range c18Breakdown(q.k8s()) {
+				obs.Cov = append(obs.Cov, c18Covered(c18K8sRules(s.Allow), sub))
+			}
 		}
 		mons = append(mons, c18MonValidate(s, rej, err)...)
 		return obs, mons
